@@ -13,7 +13,8 @@ from common import TARGET
 RUNNER = os.path.join(TARGET, "testrunner-mc")
 FAKECLI = os.path.join(TARGET, "fakecli")
 
-FIXTURE_FILES = {"file.txt": "original", "sub/nested.txt": "n"}
+# "<name>#exec" entries are not files: they say that <name> is executable (as the stand-in pack lists it)
+FIXTURE_FILES = {"file.txt": "original", "sub/nested.txt": "n", "bin/start.sh": "#!/bin/sh\nexec app\n", "bin/start.sh#exec": "yes"}
 
 
 def make_world(root):
@@ -23,9 +24,13 @@ def make_world(root):
         os.symlink(FAKECLI, os.path.join(root, "bin", n))
     os.makedirs(os.path.join(root, "tmp"))
     for rel, data in FIXTURE_FILES.items():
+        if rel.endswith("#exec"):
+            continue
         p = os.path.join(root, "crate", "fixture", rel)
         os.makedirs(os.path.dirname(p), exist_ok=True)
         open(p, "w").write(data)
+        if rel + "#exec" in FIXTURE_FILES:
+            os.chmod(p, 0o755)
     # a directory below the crate root that is spelled like the default buildpack reference: a
     # reference is an opaque string for pack (id, URI, path relative to *pack's* cwd), never to be
     # reinterpreted because something with that name exists next to the test crate
@@ -41,6 +46,8 @@ def fixture_state(root, manifest_dir=None):
         for f in fn:
             p = os.path.join(dp, f)
             out[os.path.relpath(p, base)] = open(p).read()
+            if os.stat(p).st_mode & 0o100:
+                out[os.path.relpath(p, base) + "#exec"] = "yes"
     return out
 
 
@@ -60,9 +67,13 @@ def run_scenario(root, scenario, fail=(), workspace=None, manifest_rel=None, lay
         subprocess.run(["cp", "-a", workspace, os.path.join(root, "ws")], check=True)
         manifest_dir = os.path.join(root, "ws", manifest_rel)
         for rel, data in FIXTURE_FILES.items():
+            if rel.endswith("#exec"):
+                continue
             p = os.path.join(manifest_dir, "fixture", rel)
             os.makedirs(os.path.dirname(p), exist_ok=True)
             open(p, "w").write(data)
+            if rel + "#exec" in FIXTURE_FILES:
+                os.chmod(p, 0o755)
         cargo = shutil.which("cargo") or "/root/.cargo/bin/cargo"
         extra_path = ":" + os.path.dirname(cargo) + ":/usr/bin:/bin"
         extra_env = {"CARGO": cargo, "HOME": os.environ.get("HOME", "/root"), "CARGO_NET_OFFLINE": "true"}
